@@ -164,14 +164,15 @@ theorem Complex.All.of_all_or {Q : Prop} (x : Complex) (h : x.all b = true ∨ Q
   · exact Complex.All.imp (fun _ hs => Or.inl hs) x (Complex.All.of_all x h)
   · exact Complex.All.of_forall (fun _ => Or.inr h) x
 
-theorem Complex.withImplied_all (x : Complex) : x.withImplied.all b = x.all b := by
-  cases x with
-  | one cp =>
-    cases cp with
-    | mk tag parts => cases tag <;> rfl
-  | comb L k R =>
-    cases R with
-    | mk tag parts => cases tag <;> rfl
+theorem Compound.withImplied_all (cp : Compound) : cp.withImplied.all b = cp.all b := by
+  cases cp with
+  | mk tag parts => cases tag <;> rfl
+
+theorem Complex.withImplied_all : ∀ (x : Complex), x.withImplied.all b = x.all b
+  | .one cp => by simp only [Complex.withImplied, Complex.all, Compound.withImplied_all]
+  | .comb L k R => by
+    simp only [Complex.withImplied, Complex.all, Compound.withImplied_all,
+      Complex.withImplied_all L]
 
 end Css
 end SoupVerif
